@@ -84,3 +84,108 @@ def aifeyn(labels):
     ops = set(l for l, p in zip(labels, isparam) if not p and not re.fullmatch(r"-?\d+", l))
     n = len(ops) + (1 if (any(isparam) or ints) else 0)
     return len(labels) * math.log(n) + sum(math.log(abs(c) if c != 0 else 1) for c in ints)
+
+
+def separable_model(fstr):
+    """Trees that are linear after a one-to-one reparametrisation of each parameter:
+    f = off(x) + sum_i G_i(a_i) phi_i(x)  (e.g. x/a0, x + 1/a0, a0**3*x + a1).
+    Returns (k, phis, off, Gs, dGs, syms, f_expr) with sympy callables, or None."""
+    import sympy
+    from esr.fitting.sympy_symbols import sympy_locs
+    ps = params_of(fstr)
+    if ps != list(range(len(ps))) or not ps:
+        return None
+    locs = dict(sympy_locs)
+    syms = [sympy.Symbol("a%d" % i, real=True) for i in range(len(ps))]
+    for i, s_ in enumerate(syms):
+        locs["a%d" % i] = s_
+    x = locs["x"]
+    try:
+        f = sympy.sympify(fstr, locals=locs)
+        if f.has(sympy.zoo) or f.has(sympy.nan):
+            return None
+        phis, Gs, dGs = [], [], []
+        rest = f
+        for i, a in enumerate(syms):
+            d = sympy.simplify(sympy.diff(f, a))
+            if d == 0 or any(d.has(b) for j, b in enumerate(syms) if j != i):
+                return None
+            ref = None
+            for r in (1, 2, -1, sympy.Rational(1, 2)):
+                dr = d.subs(a, r)
+                if dr.is_finite is not False and dr != 0 and not dr.has(sympy.zoo) and not dr.has(sympy.nan):
+                    ref = r; break
+            if ref is None:
+                return None
+            phi = sympy.simplify(d.subs(a, ref))
+            h = sympy.simplify(d / phi)
+            if h.has(x):
+                return None
+            G = sympy.integrate(h, a)
+            if G.has(sympy.Integral) or G.has(sympy.log) and not h.has(sympy.log):
+                pass
+            phis.append(phi); Gs.append(G); dGs.append(h)
+            rest = rest - G * phi
+        off = sympy.simplify(rest)
+        if any(off.has(a) for a in syms) or off.has(sympy.zoo) or off.has(sympy.nan):
+            return None
+        return dict(k=len(ps), x=x, syms=syms, f=f, phis=phis, off=off, Gs=Gs, dGs=dGs)
+    except Exception:
+        return None
+
+
+def closed_form_separable(xv, y, s, m):
+    """closed-form ML point, exact Hessian diagonal and code length (ESR's conventions) of a separable tree, or None"""
+    import sympy
+    x, syms = m["x"], m["syms"]
+    try:
+        with np.errstate(all="ignore"):
+            X = np.column_stack([np.broadcast_to(np.asarray(sympy.lambdify([x], p, modules=["numpy"])(xv), dtype=float), xv.shape) for p in m["phis"]])
+            o = np.broadcast_to(np.asarray(sympy.lambdify([x], m["off"], modules=["numpy"])(xv), dtype=float), xv.shape)
+        if not (np.all(np.isfinite(X)) and np.all(np.isfinite(o))):
+            return None
+        W = 1.0 / s ** 2
+        A = X.T @ (X * W[:, None])
+        if np.linalg.cond(A) > 1e10:
+            return None
+        b = np.linalg.solve(A, X.T @ (W * (y - o)))
+        theta, Fa = [], []
+        for i, a in enumerate(syms):
+            sols = [v for v in sympy.solve(sympy.Eq(m["Gs"][i], sympy.Float(b[i], 30)), a) if v.is_real]
+            if not sols:
+                return None
+            av = float(sols[0])
+            dg = float(m["dGs"][i].subs(a, av))
+            if not (math.isfinite(av) and math.isfinite(dg)) or dg == 0:
+                return None
+            theta.append(av); Fa.append(A[i, i] * dg * dg)
+        theta, Fa = np.array(theta), np.array(Fa)
+        lam = sympy.lambdify([x] + syms, m["f"], modules=["numpy"])
+
+        def nll_at(th):
+            with np.errstate(all="ignore"):
+                v = np.broadcast_to(np.asarray(lam(xv, *th), dtype=float), xv.shape)
+            return gauss_nll(y, v, s) if np.all(np.isfinite(v)) else float("inf")
+
+        N = np.abs(theta) * np.sqrt(Fa / 12.0)
+        weak = N < 1
+        margin = float(np.min(np.abs(np.log(np.maximum(N, 1e-300)))))
+        th = theta.copy()
+        codelen_terms = 0.5 * np.log(Fa) + np.log(np.abs(theta)) - 0.5 * math.log(3.0)
+        kind = "none-weak"
+        if weak.any():
+            trial = np.where(weak, 0.0, theta)
+            if math.isfinite(nll_at(trial)):
+                th = trial; kind = "snapped"
+                codelen = float(np.sum(codelen_terms[~weak]))
+            elif weak.sum() == 1:
+                # a weak parameter that cannot be zeroed is kept and coded at precision |theta| (ESR's convention): ln 2
+                kind = "weak-unzeroable"
+                codelen = float(np.sum(codelen_terms[~weak])) + math.log(2.0)
+            else:
+                return None
+        else:
+            codelen = float(np.sum(codelen_terms))
+        return dict(theta=theta, theta_reported=th, nll=nll_at(th), codelen=codelen, margin=margin, kind=kind, F=Fa)
+    except Exception:
+        return None
